@@ -249,6 +249,7 @@ def directive_part(ctx, n_docs):
         body = heading_doc(ctx.rng)
         fenced = ctx.rng.random() < 0.5
         d = FencedDirective([TableOfContents()]) if fenced else RSTDirective([TableOfContents()])
+        both = ctx.rng.random() < 0.25      # the other syntax is enabled too, with a TableOfContents of its own
         k = ctx.rng.choice([1, 1, 2, 3])          # several directives with different ranges in one document
         ranges, parts = [], [body]
         for _ in range(k):
@@ -265,7 +266,8 @@ def directive_part(ctx, n_docs):
             else:
                 parts.append("\n" + head)
         doc = "".join(parts)
-        md = mistune.create_markdown(escape=True, plugins=HEAD_PLUGINS + [d])
+        extra = [RSTDirective([TableOfContents()]) if fenced else FencedDirective([TableOfContents()])] if both else []
+        md = mistune.create_markdown(escape=True, plugins=HEAD_PLUGINS + ([d] + extra if ctx.rng.random() < 0.5 else extra + [d]))
         try:
             html = md(doc)
         except Exception as e:
